@@ -1041,6 +1041,19 @@ pub struct SGen {
     pub max_ops: usize,
 }
 
+/// capacities of the buffered socket sinks: small ones around the metric sizes, the default,
+/// and (rarely) large ones up to the datagram limit
+fn buffered_cap() -> BoxedStrategy<usize> {
+    prop_oneof![
+        10 => 5usize..40,
+        10 => 40usize..200,
+        10 => Just(512usize),
+        10 => 0usize..5,
+        1 => prop_oneof![Just(1432usize), 8190usize..8196, Just(16_384usize), Just(65_507usize)],
+    ]
+    .boxed()
+}
+
 pub fn sock_case(g: SGen) -> BoxedStrategy<SockCase> {
     let transport = match g.transport {
         Some(t) => Just(t).boxed(),
@@ -1048,11 +1061,11 @@ pub fn sock_case(g: SGen) -> BoxedStrategy<SockCase> {
     };
     let buffered = match g.buffered {
         Some(false) => Just(None).boxed(),
-        Some(true) => prop_oneof![1 => Just(Some(None)), 6 => prop_oneof![5usize..40, 40usize..200, Just(512usize), 0usize..5].prop_map(|c| Some(Some(c)))].boxed(),
+        Some(true) => prop_oneof![1 => Just(Some(None)), 6 => buffered_cap().prop_map(|c| Some(Some(c)))].boxed(),
         None => prop_oneof![
             2 => Just(None),
             1 => Just(Some(None)),
-            4 => prop_oneof![5usize..40, 40usize..200, Just(512usize), 0usize..5].prop_map(|c| Some(Some(c))),
+            4 => buffered_cap().prop_map(|c| Some(Some(c))),
         ]
         .boxed(),
     };
